@@ -13,7 +13,7 @@ torn ones included): it raises nothing and returns the stored fields (CR-R of C1
 import z3
 
 from pyvc.lib import Contract, LoopSpec
-from pyvc.sym import BOOL, BV8, BYTES, INT, DeadPath, Opt, Path, Ref, Unsupported, bytes_val, fresh, to_z3, zand, znot
+from pyvc.sym import bcat, blen, BOOL, BV8, BYTES, INT, DeadPath, Opt, Path, Ref, Unsupported, bytes_val, fresh, to_z3, zand, znot
 from . import world as Wd
 from .world import AL, FIELDS, HAS_TAIL, IS_TAIL, NOCHILD, PAGE, CRAWLED, RULE, W, bit, mk_store, mk_world, node_data, sym_node
 
@@ -31,7 +31,7 @@ def I1(p):
     cs = [
         ("I1a:no-dangling-tail", z3.ForAll([a], z3.Implies(z3.And(w.blk(a), bit(fl, HAS_TAIL)), a + 128 < size))),
         ("I1b:rest-empty-without-tail", z3.ForAll([a], z3.Implies(z3.And(w.blk(a), z3.Not(bit(fl, HAS_TAIL))), w.rest(a) == bytes_val(b"")))),
-        ("I1b:rest-unfolds", z3.ForAll([a], z3.Implies(z3.And(w.blk(a), bit(fl, HAS_TAIL), a + 128 < size), w.rest(a) == z3.Concat(w.f("stem", a + 128), w.rest(a + 128))))),
+        ("I1b:rest-unfolds", z3.ForAll([a], z3.Implies(z3.And(w.blk(a), bit(fl, HAS_TAIL), a + 128 < size), w.rest(a) == bcat(w.f("stem", a + 128), w.rest(a + 128))))),
         ("I1c:successor-of-a-tailed-block-is-a-tail", z3.ForAll([a], z3.Implies(z3.And(w.blk(a), bit(fl, HAS_TAIL), a + 128 < size), bit(nxt, IS_TAIL)))),
         ("I1c:tail-block-follows-a-tailed-block", z3.ForAll([a], z3.Implies(z3.And(w.blk(a), bit(fl, IS_TAIL)), z3.And(a >= 256, bit(w.f("flags", a - 128), HAS_TAIL))))),
     ]
@@ -110,7 +110,7 @@ ACCESSORS = {
     "has_tail": lambda d, o: bit(d[1], HAS_TAIL),
     "is_tail": lambda d, o: bit(d[1], IS_TAIL),
     "can_have_child_webentities": lambda d, o: z3.Not(bit(d[1], NOCHILD)),
-    "stem": lambda d, o: z3.Concat(d[0], o.f["tail"]),
+    "stem": lambda d, o: bcat(d[0], o.f["tail"]),
 }
 
 
@@ -251,14 +251,34 @@ class SetStem(Contract):
 
     @staticmethod
     def post(d1, tail1, s):
-        L = z3.Length(s)
+        L = blen(s)
         return [
-            ("payload++tail==stem", z3.Concat(d1[0], tail1) == s),
-            ("payload-fits", z3.Length(d1[0]) <= CHUNK),
+            ("payload++tail==stem", bcat(d1[0], tail1) == s),
+            ("payload-fits", blen(d1[0]) <= CHUNK),
             ("has-tail<=>longer-than-payload", bit(Wd._coerce(d1[1], BV8), HAS_TAIL) == (L > CHUNK)),
-            ("tail-nonempty<=>longer-than-payload", (z3.Length(tail1) > 0) == (L > CHUNK)),
-            ("payload-full-when-tailed", z3.Implies(L > CHUNK, z3.Length(d1[0]) == CHUNK)),
+            ("tail-nonempty<=>longer-than-payload", (blen(tail1) > 0) == (L > CHUNK)),
+            ("payload-full-when-tailed", z3.Implies(L > CHUNK, blen(d1[0]) == CHUNK)),
         ]
+
+    def apply(self, ex, p, recv, args, kw, ln):
+        s = to_z3(args[0])
+        q = p.fork()
+        o = q.obj(recv)
+        d = list(node_data(q, recv))
+        f0 = Wd._coerce(d[1], BV8)
+        ex.oblige(q, "set_stem:node-carries-no-tail-yet", z3.And(to_z3(o.f["tail"]) == bytes_val(b""), z3.Not(bit(f0, HAS_TAIL))), ln, "pre")
+        L = blen(s)
+        payload = fresh("payload", BYTES)
+        tail = fresh("tail", BYTES)
+        d[0] = payload
+        d[1] = z3.If(L > CHUNK, f0 | z3.BitVecVal(1 << HAS_TAIL, 8), f0)
+        o.f["data"] = q.new_obj("list", {"items": d})
+        o.f["tail"] = tail
+        q.assume(bcat(payload, tail) == s)
+        q.assume(blen(payload) == z3.If(L > CHUNK, CHUNK, L))
+        q.assume((blen(tail) > 0) == (L > CHUNK))
+        q.mut += 1
+        return [(q, None)]
 
     def check(self, ex, p0, res, tag):
         n = self.n
@@ -269,6 +289,8 @@ class SetStem(Contract):
                 continue
             d1 = node_data(p1, n)
             t1 = to_z3(p1.obj(n).f["tail"])
+            ex.oblige(p1, "payload-length", blen(to_z3(d1[0])) == z3.If(blen(s) > CHUNK, CHUNK, blen(s)), None)
+            ex.oblige(p1, "flags-value", Wd._coerce(d1[1], BV8) == z3.If(blen(s) > CHUNK, node_data(p0, n)[1] | z3.BitVecVal(32, 8), node_data(p0, n)[1]), None)
             for nm, f in self.post([to_z3(x) for x in d1], t1, s):
                 ex.oblige(p1, nm, f, None)
             f0, f1 = node_data(p0, n)[1], Wd._coerce(d1[1], BV8)
@@ -363,7 +385,7 @@ def read_loop_inv(ex, p):
     ]
     if has_clauses(p, I1(p)):
         j = list_join(ex, p, p.env["chunks"])
-        cs.append(("chunks-so-far++rest-of-cursor==rest-of-head", z3.Concat(j, w.rest(blk)) == w.rest(b0)))
+        cs.append(("chunks-so-far++rest-of-cursor==rest-of-head", bcat(j, w.rest(blk)) == w.rest(b0)))
     return cs
 
 
@@ -374,11 +396,11 @@ def list_join(ex, p, ref):
     items = [to_z3(x) for x in o.f["items"]]
     if not items:
         return bytes_val(b"")
-    return z3.Concat(*items) if len(items) > 1 else items[0]
+    return bcat(*items) if len(items) > 1 else items[0]
 
 
 def _append_join(ex, p, o, v):
-    o.f["join"] = z3.Concat(o.f["join"], to_z3(v))
+    o.f["join"] = bcat(o.f["join"], to_z3(v))
     o.f["len"] = o.f["len"] + 1
 
 
@@ -428,7 +450,7 @@ class Write(Contract):
         o.f["exists"] = False
         t = to_z3(o.f["tail"])
         p.assume(p.w["T.size"] >= 128)
-        p.assume(bit(d[1], HAS_TAIL) == (z3.Length(t) > 0))
+        p.assume(bit(d[1], HAS_TAIL) == (blen(t) > 0))
         p.assume(z3.Not(bit(d[1], IS_TAIL)))
         for k_ in list(p.w):
             p.w["old:" + k_] = p.w[k_]
@@ -449,7 +471,7 @@ class Write(Contract):
         if idx:
             # inside the chunk loop: block i+1 of the tail; what remains after it
             i = to_z3(q.env[idx[0]])
-            val = z3.Extract(t, CHUNK * (i + 1), z3.Length(t) - CHUNK * (i + 1))
+            val = z3.Extract(t, CHUNK * (i + 1), blen(t) - CHUNK * (i + 1))
         else:
             val = t
         q.w["G.rest"] = z3.Store(q.w["G.rest"], addr, val)
@@ -481,13 +503,15 @@ class Write(Contract):
                     ex.oblige(p1, "other-blocks[%s]-unchanged" % f, z3.ForAll([a], z3.Implies(a != b, w1.f(f, a) == w0.f(f, a))), None)
                 ex.oblige(p1, "ghost-unchanged", p1.w["G.rest"] == p0.w["G.rest"], None)
             else:
-                L = z3.Length(t0)
-                k = z3.If(L > 0, (L + CHUNK - 1) / CHUNK, 0)
+                L = blen(t0)
+                k = Wd.TB(L)
                 ex.oblige(p1, "block==old-size", ex.opt_eq(o1.f["block"], size0, p1), None)
                 ex.oblige(p1, "appended-1+ceil(len(tail)/74)-blocks", p1.w["T.size"] == size0 + 128 * (1 + k), None)
                 for i, f in enumerate(FIELDS):
                     ex.oblige(p1, "head[%s]==data" % f, w1.f(f, size0) == Wd._coerce(d0[i], Wd.SORTS[i]), None)
                     ex.oblige(p1, "old-blocks[%s]-unchanged" % f, z3.ForAll([a], z3.Implies(a < size0, w1.f(f, a) == w0.f(f, a))), None)
+                for nm, f in tails_after(w1, size0):
+                    ex.oblige(p1, nm, f, None)
                 ex.oblige(p1, "ghost-rest-of-head==tail", w1.rest(size0) == t0, None)
                 ex.oblige(p1, "ghost-old-unchanged", z3.ForAll([a], z3.Implies(a < size0, w1.rest(a) == w0.rest(a))), None)
             for nm, f in I1(p1):
@@ -498,7 +522,9 @@ class Write(Contract):
     def apply(self, ex, p, recv, args, kw, ln):
         """used by trie-level callers"""
         o = p.obj(recv)
-        d = [to_z3(x) for x in node_data(p, recv)]
+        d = [Wd._coerce(x, srt) for x, srt in zip(node_data(p, recv), Wd.SORTS)]
+        p = p.fork()
+        Wd.assume_A1(p)
         for i, c in enumerate(Wd.in_range(d)):
             ex.oblige(p, "node.write:field-range/%d" % i, c, ln, "pre")
         w = W(p)
@@ -515,15 +541,15 @@ class Write(Contract):
             if b is None:
                 ex.oblige(q, "node.write:new-node-does-not-exist", znot(ex.truth(o.f["exists"], q)), ln, "pre")
                 t = to_z3(o.f["tail"])
-                ex.oblige(q, "node.write:tail-flag-matches-tail", bit(d[1], HAS_TAIL) == (z3.Length(t) > 0), ln, "pre")
+                ex.oblige(q, "node.write:tail-flag-matches-tail", bit(d[1], HAS_TAIL) == (blen(t) > 0), ln, "pre")
                 ex.oblige(q, "node.write:not-a-tail-block", z3.Not(bit(d[1], IS_TAIL)), ln, "pre")
                 ex.oblige(q, "node.write:store-has-a-header", q.w["T.size"] >= 128, ln, "pre")
                 for nm, f in I1(q):
                     ex.oblige(q, "node.write:" + nm, f, ln, "pre")
                 size0 = q.w["T.size"]
                 old = dict(q.w)
-                L = z3.Length(t)
-                k = z3.If(L > 0, (L + CHUNK - 1) / CHUNK, 0)
+                L = blen(t)
+                k = Wd.TB(L)
                 for f, s in zip(FIELDS, Wd.SORTS):
                     q.w["T." + f] = fresh("T_" + f, z3.ArraySort(INT, s))
                 q.w["G.rest"] = fresh("G_rest", z3.ArraySort(INT, BYTES))
@@ -535,6 +561,8 @@ class Write(Contract):
                     q.assume(w1.f(f, size0) == Wd._coerce(d[i], Wd.SORTS[i]))
                     q.assume(z3.ForAll([a], z3.Implies(a < size0, w1.f(f, a) == w0.f(f, a))))
                 q.assume(w1.rest(size0) == t)
+                for nm, f in tails_after(w1, size0):
+                    q.assume(f)
                 q.assume(z3.ForAll([a], z3.Implies(a < size0, w1.rest(a) == w0.rest(a))))
                 q.assume(AL(q.w["T.size"]))
                 assume_all(q, I1(q))
@@ -564,6 +592,18 @@ class Write(Contract):
         return out
 
 
+def tails_after(w, head, name="new"):
+    """every block after `head` is a tail block carrying nothing but its chunk"""
+    a = z3.Int("a")
+    rng = z3.And(w.blk(a), a > head)
+    cs = [("%s-blocks-after-the-head-are-tails" % name, z3.ForAll([a], z3.Implies(rng, w.flag(a, IS_TAIL))))]
+    for k in (PAGE, CRAWLED, RULE):
+        cs.append(("%s-tail-blocks-bit%d-clear" % (name, k), z3.ForAll([a], z3.Implies(rng, z3.Not(w.flag(a, k))))))
+    for f in ("we", "left", "right", "child", "parent", "outl", "inl"):
+        cs.append(("%s-tail-blocks[%s]==0" % (name, f), z3.ForAll([a], z3.Implies(rng, w.f(f, a) == 0))))
+    return cs
+
+
 def Wd_fields_named(w):
     return [("codec-range/%d" % i, c) for i, c in enumerate(Wd.fields_in_range(w))]
 
@@ -576,11 +616,11 @@ def write_loop_inv(ex, p):
     head = self_.f["block"]
     head = head.val if isinstance(head, Opt) else to_z3(head)
     t = to_z3(self_.f["tail"])
-    d = [to_z3(x) for x in node_data(p, p.env["self"])]
+    d = [Wd._coerce(x, srt) for x, srt in zip(node_data(p, p.env["self"]), Wd.SORTS)]
     idx = [k for k in p.env if k.startswith("__i")]
     i = to_z3(p.env[idx[0]]) if idx else z3.IntVal(0)
     size = p.w["T.size"]
-    L = z3.Length(t)
+    L = blen(t)
     last = head + 128 * i
     a = z3.Int("a")
     old = Wd.Old({k[4:]: v for k, v in p.w.items() if k.startswith("old:")})
@@ -602,6 +642,7 @@ def write_loop_inv(ex, p):
     cs.append(("I1a-except-frontier", z3.ForAll([a], z3.Implies(z3.And(w.blk(a), bit(fl, HAS_TAIL), a != last), a + 128 < size))))
     cs += inv[1:]
     cs += Wd_fields_named(w)
+    cs += tails_after(w, head, "written")
     return cs
 
 
